@@ -18,7 +18,15 @@ func sortSlice[K any](keys []K, less func(a, b K) bool) {
 // or when a run does not set the knob, the real value is used.
 var knobValues = map[string]int{}
 
-func SetKnobs(m map[string]int) { knobValues = m }
+func SetKnobs(m map[string]int) {
+	if m == nil {
+		m = map[string]int{}
+	}
+	knobValues = m
+}
+
+// Knobs returns the current knob settings.
+func Knobs() map[string]int { return knobValues }
 
 func Knob(name string, def int) int {
 	if v, ok := knobValues[name]; ok {
